@@ -34,6 +34,7 @@ type Op struct {
 	RC       []int    `json:"rc,omitempty"` // row col rows cols
 	Base     string   `json:"base,omitempty"`
 	Off      bool     `json:"off,omitempty"`
+	Sel      string   `json:"sel,omitempty"` // with off: which channels have projectors: "" all, "odd", "even", "last", "mid"
 }
 
 type Case struct {
@@ -346,6 +347,43 @@ func genRC(r *lib.Rng) Op {
 	return Op{Op: "rc", RC: []int{v(), v(), v(), v()}}
 }
 
+// filesOp: a START; when OFF is written, projectors sit on all channels or on a subset that is not a
+// prefix of the channel list (feedback streams only, the last channels only, one channel in the middle).
+func filesOp(r *lib.Rng, base string) Op {
+	o := Op{Op: "files", Base: base, Off: r.Chance(2, 3)}
+	if o.Off {
+		o.Sel = pickStr(r, []string{"", "odd", "odd", "even", "last", "mid"})
+	}
+	return o
+}
+
+// offChannels lists the channel indices that get projectors.
+func offChannels(o Op, nchan int) []int {
+	var out []int
+	if !o.Off {
+		return out
+	}
+	for i := 0; i < nchan; i++ {
+		keep := false
+		switch o.Sel {
+		case "odd":
+			keep = i%2 == 1
+		case "even":
+			keep = i%2 == 0
+		case "last":
+			keep = i >= nchan-(nchan+2)/3
+		case "mid":
+			keep = i == nchan/2
+		default:
+			keep = true
+		}
+		if keep {
+			out = append(out, i)
+		}
+	}
+	return out
+}
+
 func genCase(r *lib.Rng, id int64, tier string) Case {
 	c := Case{ID: id}
 	navail := r.Range(1, 8)
@@ -354,7 +392,7 @@ func genCase(r *lib.Rng, id int64, tier string) Case {
 	sort.Ints(c.Avail)
 	files := func(small Op) {
 		c.Ops = append(c.Ops, small)
-		c.Ops = append(c.Ops, Op{Op: "files", Base: pickStr(r, []string{"out", "d1/d2", "run_a"}), Off: r.Chance(1, 2)})
+		c.Ops = append(c.Ops, filesOp(r, pickStr(r, []string{"out", "d1/d2", "run_a"})))
 	}
 	switch x := r.Intn(100); {
 	case x < 50: // Lancero history on one object
@@ -374,7 +412,7 @@ func genCase(r *lib.Rng, id int64, tier string) Case {
 		files(o)
 		if r.Chance(1, 2) {
 			c.Ops = append(c.Ops, genLRun(r, c.Avail, true, false))
-			c.Ops = append(c.Ops, Op{Op: "files", Base: "out", Off: r.Chance(1, 2)})
+			c.Ops = append(c.Ops, filesOp(r, "out"))
 		}
 	case x < 72:
 		n := r.Range(1, 2)
@@ -382,7 +420,7 @@ func genCase(r *lib.Rng, id int64, tier string) Case {
 			c.Ops = append(c.Ops, genAbaco(r))
 		}
 		if r.Chance(1, 4) {
-			c.Ops = append(c.Ops, Op{Op: "files", Base: "ab", Off: r.Chance(1, 2)})
+			c.Ops = append(c.Ops, filesOp(r, "ab"))
 		}
 	case x < 78:
 		nd := r.Range(1, 3)
@@ -392,7 +430,7 @@ func genCase(r *lib.Rng, id int64, tier string) Case {
 		}
 		c.Ops = append(c.Ops, o)
 		if r.Chance(1, 2) {
-			c.Ops = append(c.Ops, Op{Op: "files", Base: "ro", Off: r.Chance(1, 2)})
+			c.Ops = append(c.Ops, filesOp(r, "ro"))
 		}
 	case x < 88:
 		kind := pickStr(r, []string{"tprep", "sprep", "eprep"})
@@ -402,7 +440,7 @@ func genCase(r *lib.Rng, id int64, tier string) Case {
 		}
 		c.Ops = append(c.Ops, o)
 		if kind != "eprep" && r.Chance(1, 2) {
-			c.Ops = append(c.Ops, Op{Op: "files", Base: "sim", Off: r.Chance(1, 2)})
+			c.Ops = append(c.Ops, filesOp(r, "sim"))
 		}
 	case x < 94:
 		for i := 0; i < 12; i++ {
@@ -505,6 +543,14 @@ func corpus() []Case {
 			{Op: "lrun", Req: []int{5, 3}, Nsamp: 1, First: 1, SepCards: 4, Geom: g(1, 4, 3, 4)},
 			{Op: "lrun", Req: []int{0}, Nsamp: 1, First: 1, SepCards: 4, Geom: g(2, 4)}}},
 		{Avail: all, Ops: []Op{{Op: "rprep", Devs: []int{3, 2}}, {Op: "files", Base: "ro", Off: true}}},
+		// projectors on a subset of the channels that is not a prefix of the channel list
+		{Avail: all, Ops: []Op{
+			{Op: "lrun", Req: []int{0}, Nsamp: 1, First: 1, Geom: g(2, 2)},
+			{Op: "files", Base: "fb", Off: true, Sel: "odd"}, {Op: "files", Base: "fb", Off: true, Sel: "mid"},
+			{Op: "files", Base: "fb", Off: true, Sel: "last"}, {Op: "files", Base: "fb", Off: true, Sel: "even"}}},
+		{Avail: all, Ops: []Op{{Op: "tprep", N: 4}, {Op: "files", Base: "tr", Off: true, Sel: "mid"},
+			{Op: "files", Base: "tr", Off: true, Sel: "last"}}},
+		{Avail: all, Ops: []Op{{Op: "aprep", One: true, Pk: g(3, 8, 2, 0)}, {Op: "files", Base: "ab", Off: true, Sel: "odd"}}},
 		{Avail: all, Ops: []Op{{Op: "tprep", N: 3}, {Op: "files", Base: "tr", Off: true}, {Op: "files", Base: "tr"}}},
 		{Avail: all, Ops: []Op{{Op: "sprep", N: 4}, {Op: "files", Base: "sp"}, {Op: "tprep", N: 0}, {Op: "files", Base: "sp"}}},
 		{Avail: all, Ops: []Op{{Op: "eprep", N: 1}, {Op: "eprep", N: 3}}},
@@ -885,17 +931,18 @@ func runCase(c Case) (res lib.Result) {
 				base := tmp + bname
 				if last == nil || last.nchan <= 0 {
 					// today is irrelevant to the outcome
-					opTerm = fmt.Sprintf("Files %s %s 0 %s", q(base), q(""), lib.B(o.Off))
+					opTerm = fmt.Sprintf("Files %s %s 0 []", q(base), q(""))
 					obTerm, ob = "ONoFiles", "nothing prepared"
 					if last != nil {
-						f := dastard.VerifC19WriteStart(last.ds, base, 4, 16, o.Off)
+						f := dastard.VerifC19WriteStart(last.ds, base, 4, 16, nil)
 						if f.PrepareRunErr == "" {
 							panic("PrepareRun accepted a source without channels")
 						}
 					}
 					return
 				}
-				f := dastard.VerifC19WriteStart(last.ds, base, 4, 16, o.Off)
+				offs := offChannels(o, last.nchan)
+				f := dastard.VerifC19WriteStart(last.ds, base, 4, 16, offs)
 				if f.Panic != "" {
 					panic(f.Panic)
 				}
@@ -905,7 +952,7 @@ func runCase(c Case) (res lib.Result) {
 				i := starts[base]
 				starts[base]++
 				today := filepath.Base(filepath.Dir(filepath.Dir(f.Pattern)))
-				opTerm = fmt.Sprintf("Files %s %s %d %s", q(base), q(today), i, lib.B(o.Off))
+				opTerm = fmt.Sprintf("Files %s %s %d %s", q(base), q(today), i, lib.ZListInt(offs))
 				heads := map[string]string{}
 				for _, fl := range f.Files {
 					heads[fl.Name] = fl.Head
@@ -932,8 +979,11 @@ func runCase(c Case) (res lib.Result) {
 				obTerm = fmt.Sprintf("OFiles %s %s %d", q(f.Pattern), lib.List(cfs), len(f.Files))
 				ob = f
 				tags["files"] = true
-				if o.Off {
+				if len(offs) > 0 {
 					tags["files-with-off"] = true
+					if len(offs) < last.nchan && offs[len(offs)-1] != len(offs)-1 {
+						tags["files-off-on-non-prefix-subset"] = true
+					}
 				}
 				nonTrivial = true
 			default:
